@@ -19,6 +19,7 @@ import (
 	"os"
 	"sort"
 	"strings"
+	"sync"
 	"testing"
 	"time"
 
@@ -30,17 +31,24 @@ import (
 )
 
 const (
-	maxExecMs = 200
-	stallMs   = 500
+	maxExecMs = 80
+	stallMs   = 200
 )
 
 func profile(max int) sh.Profile {
-	return sh.Profile{MinCmds: 8, MaxCmds: max, KeepSession: 2, Faults: true, Disconnects: true, HardDrops: true, Ping: true,
+	return sh.Profile{MinCmds: 8, MaxCmds: max, KeepSession: 2, Faults: true, RefuseFaults: true, Disconnects: true, HardDrops: true, Ping: true,
 		MaxExecMs: maxExecMs, StallMs: stallMs}
 }
 
 func genCase(t *rapid.T) sh.Case         { return sh.Gen(t, profile(26)) }
 func genCaseThorough(t *rapid.T) sh.Case { return sh.Gen(t, profile(50)) }
+
+func maxStalls() int {
+	if pbt.Tier() == "thorough" {
+		return 2
+	}
+	return 1
+}
 
 // sessModel is the independent upper bound on what a session may hold.
 type sessModel struct {
@@ -49,24 +57,78 @@ type sessModel struct {
 	ac0   bool // autocommit may be off
 }
 
+// wall-clock accounting of the fixture, reported in the evidence ("extra") so that a slow run can be diagnosed
+var timing struct {
+	sync.Mutex
+	cases                     int
+	setup, steps, final, max  time.Duration
+	unobserved, clientTimeout int
+}
+
+func noteTiming(tr *sh.Trace) {
+	timing.Lock()
+	defer timing.Unlock()
+	timing.cases++
+	timing.setup += tr.SetupDur
+	timing.steps += tr.StepsDur
+	timing.final += tr.FinalDur
+	if tr.TotalDur > timing.max {
+		timing.max = tr.TotalDur
+	}
+	timing.unobserved += tr.Unobserved
+	for _, st := range tr.Steps {
+		if strings.Contains(st.IOErr, "timeout") {
+			timing.clientTimeout++
+		}
+	}
+}
+
+func reportTiming(rec *pbt.Recorder) {
+	timing.Lock()
+	defer timing.Unlock()
+	rec.SetExtra("fixture_cases", timing.cases)
+	rec.SetExtra("fixture_setup_s", timing.setup.Seconds())
+	rec.SetExtra("fixture_commands_s", timing.steps.Seconds())
+	rec.SetExtra("fixture_final_ledger_s", timing.final.Seconds())
+	rec.SetExtra("fixture_slowest_case_s", timing.max.Seconds())
+	rec.SetExtra("fixture_unobserved_closes", timing.unobserved)
+	rec.SetExtra("fixture_client_timeouts", timing.clientTimeout)
+}
+
 func checkCase(c sh.Case) (o pbt.Outcome) {
-	// at most two stalls per history keep a case cheap
+	// at most one (quick) / two (thorough) stalls per history keep a case cheap
 	stalls := 0
 	for i := range c.Cmds {
 		if f := c.Cmds[i].F; f != nil && f.Action == sh.ActStall {
 			stalls++
-			if stalls > 2 {
+			if stalls > maxStalls() {
 				c.Cmds[i].F = nil
 			}
 		}
 	}
-	tr := sh.Run(c, sh.Options{FinalLedger: true, ClientTimeout: 4 * time.Second})
+	t0 := time.Now()
+	tr, live := sh.RunLive(c, sh.Options{FinalLedger: true, ClientTimeout: 3 * time.Second})
+	t1 := time.Now()
+	live.Close()
+	if os.Getenv("VERIF_TIMING") != "" {
+		fmt.Printf("OUTER run=%v close=%v\n", t1.Sub(t0).Round(time.Millisecond), time.Since(t1).Round(time.Millisecond))
+	}
 	if tr.SetupErr != "" {
 		o.Skip = "fixture: " + strings.SplitN(tr.SetupErr, ":", 2)[0]
 		return
 	}
 	if os.Getenv("VERIF_TRACE") != "" {
 		fmt.Println(sh.Dump(tr))
+	}
+	noteTiming(tr)
+	if os.Getenv("VERIF_TIMING") != "" {
+		slow := ""
+		for _, st := range tr.Steps {
+			if st.Dur > 300*time.Millisecond {
+				slow += fmt.Sprintf(" [#%d %s %s %v io=%q]", st.Idx, st.Cmd.K, faultStr(st), st.Dur.Round(time.Millisecond), st.IOErr)
+			}
+		}
+		fmt.Printf("TIMING total=%v setup=%v steps=%v final=%v n=%d unobs=%d hard=%d%s\n", tr.TotalDur.Round(time.Millisecond), tr.SetupDur.Round(time.Millisecond), tr.StepsDur.Round(time.Millisecond), tr.FinalDur.Round(time.Millisecond), len(tr.Steps), tr.Unobserved, tr.HardDrops, slow)
 	}
 	an := analyse(c, tr)
 	o.Labels = an.labels
@@ -140,6 +202,21 @@ func analyse(c sh.Case, tr *sh.Trace) *analysis {
 		inTxBefore := m.maybe || m.ac0
 		if st.FaultFired {
 			lab["fault_"+st.Cmd.F.On+"_"+st.Cmd.F.Action] = true
+			if st.Cmd.F.On == sh.OnConnect && sh.IsSharded(st.Cmd.K) && c.Slices >= 2 {
+				sl := map[int]bool{}
+				for _, k := range st.Cmd.Keys {
+					sl[k%c.Slices] = true
+				}
+				if len(sl) >= 2 {
+					lab["refused_multi_slice_statement"] = true
+					if inTxBefore {
+						lab["refused_multi_slice_statement_in_tx"] = true
+					}
+					if c.KeepSession {
+						lab["refused_multi_slice_statement_keep_session"] = true
+					}
+				}
+			}
 			span := map[string]bool{st.FaultConn.Server[:strings.Index(st.FaultConn.Server, "/")]: true}
 			for sl := range txSlices[s] {
 				span[sl] = true
@@ -165,7 +242,9 @@ func analyse(c sh.Case, tr *sh.Trace) *analysis {
 		case sh.KAc0:
 			m.ac0 = true
 		case sh.KAc1:
-			if st.OK {
+			// autocommit 0 -> 1 commits; with autocommit already on the statement changes nothing (MySQL) and a
+			// BEGIN-started transaction stays open
+			if st.OK && m.ac0 {
 				m.ac0, m.maybe = false, false
 				txSlices[s] = map[string]bool{}
 			}
@@ -504,9 +583,11 @@ func predict(c sh.Case, tr *sh.Trace) *prediction {
 				m.ac0 = true
 			}
 		case st.Cmd.K == sh.KAc1:
-			m.ac0, m.txOpen = false, false
-			if !c.KeepSession {
-				m.conns = map[string]*txConn{} // every transaction connection is recycled, closed or not
+			if m.ac0 {
+				m.ac0, m.txOpen = false, false
+				if !c.KeepSession {
+					m.conns = map[string]*txConn{} // every transaction connection is recycled, closed or not
+				}
 			}
 		case st.Cmd.K == sh.KCommit:
 			m.txOpen = false
@@ -659,7 +740,96 @@ func classify(c sh.Case, tr *sh.Trace, an *analysis) string {
 	return "C19-F2"
 }
 
-const rule = "C18's command machine (1-3 sessions, 1-3 slices, keep-session on in a third) plus disconnects (COM_QUIT, FIN, FIN with a statement in flight, RST) and a fault per command with probability 0.3: SQL error / socket closed before or after the reply / stall past max_sql_execute_time (200 ms) on the tagged statement, BEGIN, COMMIT, ROLLBACK, SET autocommit, the session-variable SET, COM_INIT_DB or a keep-session ping, on a slice the command touches; non-trivial = a fault fired inside an open transaction that holds another slice (or two), or during a keep-session statement"
+// ---- acquisition path: "this slice cannot give a connection right now" ----
+
+type acqCmd struct {
+	S, K, NKeys, Refuse, RSlice int
+	Keys                        [3]int
+}
+
+// genAcquire draws short histories on a fresh namespace (pools still empty, capacity 1-2) that consist mostly of
+// sharded statements touching 2-3 slices, inside and outside transactions and with keep-session on or off, half of
+// them while the servers of one of the touched slices refuse new connections.
+func genAcquire(t *rapid.T) sh.Case {
+	c := sh.Case{MaxExecMs: maxExecMs, StallMs: stallMs}
+	c.Slices = rapid.SampledFrom([]int{2, 3, 3}).Draw(t, "slices")
+	c.Replicas = rapid.SampledFrom([]int{0, 0, 1}).Draw(t, "replicas")
+	c.Cap = rapid.IntRange(1, 2).Draw(t, "cap")
+	c.MaxCap = c.Cap + 3
+	c.KeepSession = rapid.IntRange(0, 2).Draw(t, "ks") == 0
+	nsess := rapid.IntRange(1, 2).Draw(t, "sessions")
+	for i := 0; i < nsess; i++ {
+		c.RWSplit = append(c.RWSplit, rapid.Bool().Draw(t, "rwsplit"))
+	}
+	raws := rapid.SliceOfN(rapid.Custom(func(t *rapid.T) acqCmd {
+		var r acqCmd
+		r.S = rapid.IntRange(0, 1).Draw(t, "s")
+		r.K = rapid.IntRange(0, 19).Draw(t, "k")
+		r.NKeys = rapid.IntRange(2, 3).Draw(t, "nkeys")
+		for i := range r.Keys {
+			r.Keys[i] = rapid.IntRange(0, 8).Draw(t, "key")
+		}
+		r.Refuse = rapid.IntRange(0, 1).Draw(t, "refuse")
+		r.RSlice = rapid.IntRange(0, 2).Draw(t, "rslice")
+		return r
+	}), 3, 10).Draw(t, "cmds")
+	for _, r := range raws {
+		cmd := sh.Cmd{S: r.S % nsess}
+		switch {
+		case r.K < 11:
+			cmd.K = []string{sh.KSRead, sh.KSWrite, sh.KSForUpdate}[r.K%3]
+			for j := 0; j < r.NKeys; j++ {
+				cmd.Keys = append(cmd.Keys, r.Keys[j])
+			}
+			if r.Refuse == 1 {
+				cmd.F = &sh.Fault{On: sh.OnConnect, Action: sh.ActRefuse, Slice: cmd.Keys[r.RSlice%len(cmd.Keys)] % c.Slices}
+			}
+		case r.K < 13:
+			cmd.K = sh.KBegin
+		case r.K < 14:
+			cmd.K = sh.KAc0
+		case r.K < 15:
+			cmd.K = sh.KCommit
+		case r.K < 16:
+			cmd.K = sh.KRollback
+		case r.K < 17:
+			cmd.K = sh.KAc1
+		case r.K < 19:
+			cmd.K = sh.KURead
+			if r.Refuse == 1 {
+				cmd.F = &sh.Fault{On: sh.OnConnect, Action: sh.ActRefuse, Slice: 0}
+			}
+		default:
+			cmd.K = sh.KDrop
+		}
+		c.Cmds = append(c.Cmds, cmd)
+	}
+	return c
+}
+
+func checkAcquire(c sh.Case) pbt.Outcome {
+	o := checkCase(c)
+	// non-trivial here: a refusal fired for a sharded statement touching two or more slices
+	o.NonTrivial = false
+	for _, l := range o.Labels {
+		if l == "refused_multi_slice_statement" {
+			o.NonTrivial = true
+		}
+	}
+	return o
+}
+
+const ruleAcquire = "fresh namespace (empty pools, capacity 1-2, 2-3 slices), 1-2 sessions, keep-session on in a third: 3-10 commands, mostly sharded reads / writes / SELECT ... FOR UPDATE touching 2-3 slices, inside and outside transactions (BEGIN, autocommit=0), half of them while every server of one touched slice closes newly accepted sockets before the greeting (pool Get fails after its three dial attempts); non-trivial = such a refusal fired for a statement touching two or more slices. Same ledger oracle: per-command bounds and quiescence."
+
+func TestC19Acquire(t *testing.T) {
+	if _, err := proxyfix.Shared(); err != nil {
+		t.Fatalf("fixture: the shared proxy did not start: %v", err) // inconclusive, not a violation
+	}
+	pbt.RunWith(t, pbt.Spec{ID: "C19", Sub: "acquire", Quick: 100, Thorough: 600, Rule: ruleAcquire, Floor: 0.25}, genAcquire,
+		func(c sh.Case, rec *pbt.Recorder) pbt.Outcome { o := checkAcquire(c); reportTiming(rec); return o })
+}
+
+const rule = "C18's command machine (1-3 sessions, 1-3 slices, keep-session on in a third) plus disconnects (COM_QUIT, FIN, FIN with a statement in flight, RST) and a fault per command with probability 0.3: SQL error / socket closed before or after the reply / stall past max_sql_execute_time (80 ms) on the tagged statement, BEGIN, COMMIT, ROLLBACK, SET autocommit, the session-variable SET, COM_INIT_DB or a keep-session ping, on a slice the command touches; non-trivial = a fault fired inside an open transaction that holds another slice (or two), or during a keep-session statement"
 
 func TestC19Ledger(t *testing.T) {
 	if _, err := proxyfix.Shared(); err != nil {
@@ -669,5 +839,6 @@ func TestC19Ledger(t *testing.T) {
 	if pbt.Tier() == "thorough" {
 		gen = genCaseThorough
 	}
-	pbt.Run(t, pbt.Spec{ID: "C19", Sub: "ledger", Quick: 60, Thorough: 400, Rule: rule, Floor: 0.3}, gen, checkCase)
+	pbt.RunWith(t, pbt.Spec{ID: "C19", Sub: "ledger", Quick: 60, Thorough: 400, Rule: rule, Floor: 0.3}, gen,
+		func(c sh.Case, rec *pbt.Recorder) pbt.Outcome { o := checkCase(c); reportTiming(rec); return o })
 }
